@@ -24,7 +24,7 @@ type c08Frame struct {
 	Padded bool   `json:"pad,omitempty"`
 	Incr   int    `json:"incr,omitempty"` // W: 0 zero, 1 small, 2 up to exactly 2^31-1, 3 one past
 	Code   uint32 `json:"code,omitempty"`
-	X      byte   `json:"x,omitempty"` // undefined flag bits to add
+	X      byte   `json:"x,omitempty"`   // undefined flag bits to add
 	Fix    bool   `json:"fix,omitempty"` // steer this frame to a stream on which its kind is legal in the current state (when one exists)
 }
 
